@@ -11,7 +11,7 @@ S="$(mktemp -d /tmp/verif-det-XXXXXX)"; trap 'rm -rf "$S"' EXIT
 "$VERIF/bin/build.sh" "$S" plain || exit 2
 "$VERIF/bin/build.sh" "$S" race || exit 2
 fail=0
-for prop in C06 C11 C12 C14 C15 C17; do
+for prop in ${DET_PROPS:-C06 C11 C12 C14 C15 C17}; do
   bin="$S/worker"; case $prop in C12|C17) bin="$S/worker-race";; esac
   n=$N; case $prop in C14|C15) n=$((N/4));; esac
   ref=""
